@@ -7,7 +7,7 @@ EXTENDS Lexer, Json
 CONSTANTS MaxLen, Alphabet
 VARIABLES body, ctx, done
 vars == <<body, ctx, done>>
-Contexts == {"init", "ptrtable", "concat", "callarg", "asm", "twoline", "aftercode", "inif", "afterskipped", "afterelse", "twocalls", "charconst"}
+Contexts == {"init", "ptrtable", "concat", "callarg", "asm", "twoline", "aftercode", "inif", "afterskipped", "afterelse", "twocalls", "subscript", "charconst"}
 Init == body = <<>> /\ ctx = "" /\ done = FALSE
 Next == /\ ~done
         /\ \/ Len(body) < MaxLen /\ \E x \in Alphabet : body' = Append(body, x) /\ UNCHANGED <<ctx, done>>
